@@ -19,8 +19,8 @@ RULE = (
 )
 DECIDING = ["operations", "live_fingerprints_reread", "fresh_process_comparisons", "globals_snapshots", "defaults_checked"]
 ASSUMPTIONS = ["like-for-like comparison: history and fresh interpreter use the same tree and the same PYTHONHASHSEED", "pyqubo, pennylane, qutip_qip, tweedledum are not installed: to_bqm and those exporters are not part of the histories"]
-CASE_TIMEOUT = {"quick": 120, "thorough": 240}
-WATCHDOG = {"quick": 900, "thorough": 3000}
+CASE_TIMEOUT = {"quick": 400, "thorough": 600}
+WATCHDOG = {"quick": 1500, "thorough": 6000}
 
 BOOL1 = ["cmp", "cmp3", "xorbits", "balanced", "const", "oracle_named", "shadow_reduce"]
 ANY = list(O.SOURCES)
@@ -98,7 +98,7 @@ def gen_history(rng, nops):
         elif r < 0.85:
             i = pick(lambda k: (k[0] == "qf" and k[2]) or k[0] == "algo")
             if i is not None:
-                fw = rng.choice(["qiskit", "qasm", "qasm", "sympy"])
+                fw = rng.choice(["qiskit", "qasm", "qasm", "qasm", "sympy", "qasm"])
                 add(["export", i, fw, rng.choice(["circuit", "gate"])], ("export",))
         elif r < 0.9:
             i = pick(lambda k: (k[0] == "qf" and k[2]) or k[0] == "algo")
@@ -146,9 +146,9 @@ def cases(tier, seed):
     rng = random.Random(10000 + seed)
     for h in CORPUS:
         yield {"ops": h}
-    n = 40 if tier == "quick" else 1200
+    n = 30 if tier == "quick" else 1200
     for _ in range(n):
-        yield {"ops": gen_history(rng, rng.randint(4, 7 if tier == "quick" else 12))}
+        yield {"ops": gen_history(rng, rng.randint(4, 6 if tier == "quick" else 12))}
 
 
 CORPUS = [
@@ -180,7 +180,7 @@ def fresh(recipe):
         with open(inp, "w") as f:
             json.dump(recipe, f)
         tmp = out + f".{os.getpid()}"
-        r = subprocess.run([sys.executable, "-m", "vq.props.c10ops", inp, tmp], timeout=100, capture_output=True, text=True)
+        r = subprocess.run([sys.executable, "-m", "vq.props.c10ops", inp, tmp], timeout=300, capture_output=True, text=True)
         if r.returncode != 0 or not os.path.exists(tmp):
             raise RuntimeError(f"fresh interpreter failed: {r.stderr[-500:]}")
         os.replace(tmp, out)
